@@ -404,6 +404,36 @@ Proof.
   destruct ctxs as [|x xs]; [congruence|]. cbn [negb]. apply inspector_plain.
 Qed.
 
+(* ------------------------------------------------------------------ a running listener after AddOrUpdateListener calls *)
+Lemma lis_after_last cur h c : lis_after true true cur (h ++ [c]) = Some (mkLR (built c) c).
+Proof.
+  revert cur; induction h as [|x h IH]; intros cur; cbn [app lis_after].
+  - destruct cur; cbn [lis_update]; destruct c; reflexivity.
+  - apply IH.
+Qed.
+
+(* the manager in force on the running listener is the one built from the LAST request, and so is the stored config *)
+Theorem listener_policy_is_latest h c : lis_after true true None (h ++ [c]) = Some (mkLR (built c) c).
+Proof. apply lis_after_last. Qed.
+
+Theorem listener_inspector_after_updates h ctxs insp b :
+  ctxs <> [] ->
+  (match lis_mode_after true true (h ++ [(ctxs, insp)]) b with
+   | Some m => serves_plain m = true <-> (insp = true /\ b <> 22%N)
+   | None => False
+   end).
+Proof.
+  intros Hc. unfold lis_mode_after. rewrite lis_after_last. cbn [lr_mgr built fst snd].
+  destruct ctxs as [|x xs]; [congruence|]. cbn [negb]. apply inspector_plain.
+Qed.
+
+Theorem listener_observe_latest h ctxs insp x :
+  lis_observe true true (h ++ [(x :: ctxs, insp)]) = Some (insp, x).
+Proof.
+  unfold lis_observe, lis_mode_after. rewrite lis_after_last. cbn [lr_mgr built fst snd negb hd].
+  unfold conn_mode_of. cbn [negb]. destruct insp; reflexivity.
+Qed.
+
 (* ------------------------------------------------------------------ the context of an SDS provider is the latest one *)
 Definition sp_latest (p : sprov) : Prop :=
   match sp_cert p, sp_ca p with
